@@ -20,6 +20,8 @@ import Cicada.Spec.C12
 import Cicada.Spec.C19
 import Cicada.Spec.C13
 import Cicada.Model.FdDriver
+import Cicada.Model.Prompt
+import Cicada.Model.Highlight
 import Cicada.Model.ScriptSessDriver
 import Cicada.Spec.C20
 import Cicada.Drive.C07
@@ -821,6 +823,16 @@ def answer (stream : String) (f : Array String) : Ans :=
     let hasEsc := line.contains '\\'
     { m := if same then "same" else "differs", s := "same", guard := if hasEsc then "0" else "1",
       cls := if hasEsc then "unquoted-escape" else "-" }
+  | "hl" => { m := Highlight.render (Highlight.highlight (unhex (g 0))) }
+  | "prompt" =>
+    -- the interactive entry: the line typed after `prev` was run, against the same line under -c
+    let es := envIn (g 0)
+    let line := unhex (g 1)
+    let prev := unhex (g 2)
+    let plans (l : Str) : List String := (lineToCmds l).map (fun item =>
+      if isListSep item then String.ofList item else outcomeStr planOut (planOf es.subst (planFuel item) item))
+    let same := plans (extendBangbang prev line) == plans line
+    { m := if same then "same" else "differs", s := "same", guard := "1" }
   | "ptree" => { m := match Locust.parseLines (unhex (g 0)) with
       | some t => ptDump t
       | none => "SYNTAX-ERROR" }
